@@ -204,6 +204,29 @@ class Ctx:
                 out.append(Site(fn, bi, None, 'ret', tt, extra=[tt], label=label))
         return self._number(out)
 
+    # ------------------------------------------------------------ aggregate constructions by field name
+    def constructions(self, fn, adt_path, variant=None):
+        """[(Site, {field name: term})] for every aggregate construction of adt_path (struct / enum variant) in fn"""
+        import core
+        a = self.prog.adts.get(adt_path)
+        out = []
+        if not a:
+            return out
+        short = adt_path.rsplit('::', 1)[-1]
+        for bi, b in enumerate(fn.blocks):
+            for si, st in enumerate(b['s']):
+                if st[0] != '=' or st[2][0] != 'adt' or st[2][1] != adt_path:
+                    continue
+                vname = st[2][2]
+                if variant and vname != variant:
+                    continue
+                v = next((v_ for v_ in a['variants'] if v_['name'] == vname), None)
+                if not v:
+                    continue
+                terms = [shorten(fn.term_operand(o)) for o in st[2][3]]
+                out.append(((bi, si, fn.loc(bi)), {fld[0]: t for fld, t in zip(v['fields'], terms)}))
+        return out
+
     # ------------------------------------------------------------ exact boolean functions
     def bool_cnf(self, rule, fn, clauses, what):
         """the bool function `fn` computes exactly AND over `clauses` of OR over the clause's propositions (regexes over
@@ -234,6 +257,44 @@ class Ctx:
             self.check(rule, ok, fn.path, s.key(), what + ':false-only-when-a-clause-fails', s.term[:160] + ' ' + ' '.join(s.extra)[:160], s.loc)
             ok_all &= ok
         self.check(rule, len(tr) >= 1 and len(fr) >= 1, fn.path, 'returns', what + ':both-outcomes-present', f'{len(tr)} true, {len(fr)} false returns')
+        return ok_all
+
+    def crosses_any(self, fn, site, rxs):
+        """every normal path from the entry of fn to `site` crosses an edge establishing a proposition matching one of rxs"""
+        rxs = [re.compile('^(?:' + r + ')$') if isinstance(r, str) else r for r in rxs]
+        if any(rx.search(x) for rx in rxs for x in site.extra):
+            return True
+
+        def edge_ok(bb, s_, ps):
+            return not any(rx.search(shorten(p_)) for rx in rxs for p_ in ps)
+        return site.bb not in self.reach(fn).run(edge_ok=edge_ok, start=0)
+
+    def outcome_dnf(self, rule, fn, outcomes, rest, what):
+        """multi-valued exact decision: `outcomes` maps a return-term regex to a DNF (list of conjunctions, each a list of
+        proposition regexes with their negations: (prop, negated_prop)).  Every return matching the regex must carry the DNF
+        (checked as its CNF expansion with cut-sets: one literal of every disjunct on every path); every return matching
+        `rest` must carry the negation of every listed DNF (for each conjunction, the negation of one of its literals)."""
+        import itertools
+        rets = self.returns(fn, r'.')
+        seen = set()
+        ok_all = True
+        for rx, dnf in outcomes.items():
+            ss = [s for s in rets if re.search(rx, s.term)]
+            self.check(rule, len(ss) >= 1, fn.path, 'returns', what + ':outcome-present:' + rx, f'{len(ss)} returns')
+            for s in ss:
+                seen.add(id(s))
+                ok = all(self.crosses_any(fn, s, [lit[0] for lit in choice]) for choice in itertools.product(*dnf))
+                self.check(rule, ok, fn.path, s.key(), what + ':outcome-only-under-its-condition', s.term[:120], s.loc)
+                ok_all &= ok
+        for s in rets:
+            if id(s) in seen:
+                continue
+            okm = bool(re.search(rest, s.term))
+            self.check(rule, okm, fn.path, s.key(), what + ':no-other-outcome', s.term[:120], s.loc)
+            if okm:
+                ok = all(self.crosses_any(fn, s, [lit[1] for lit in conj]) for dnf in outcomes.values() for conj in dnf)
+                self.check(rule, ok, fn.path, s.key(), what + ':remaining-outcome-only-when-no-condition-holds', s.term[:120], s.loc)
+                ok_all &= ok
         return ok_all
 
     def bool_exact(self, rule, fn, mode, props, what):
